@@ -589,6 +589,13 @@ func (e *Exec) pureResult(s *State, con *Contract, args []Value, resType types.T
 				ts = append(ts, e.c.Ite(x.Nil, BVConst(0, 64), x.ID), x.Nil)
 			case x.Ref != nil && len(x.Ref.Path) == 0:
 				ts = append(ts, BVConst(uint64(x.Ref.Obj.ID), 64), x.Nil)
+			case x.Ref != nil && fieldsOnly(x.Ref.Path):
+				// a pointer to a (nested) field of an object: the object's identity and the field path, as one constant
+				id := uint64(x.Ref.Obj.ID)
+				for _, pe := range x.Ref.Path {
+					id = id*1000003 + uint64(pe.Field) + 1
+				}
+				ts = append(ts, BVConst(id|1<<62, 64), x.Nil)
 			default:
 				ok = false
 			}
@@ -1072,4 +1079,14 @@ func (e *Exec) bytesEq(s *State, a, aoff, alen, b, boff, blen *Term) *Term {
 	}
 	s.quants = append(s.quants, q)
 	return eqv
+}
+
+// fieldsOnly reports whether a reference path selects fields only (no array elements).
+func fieldsOnly(p []PElem) bool {
+	for _, pe := range p {
+		if pe.Index != nil {
+			return false
+		}
+	}
+	return true
 }
